@@ -1,10 +1,175 @@
 import CoxeterVerif.Driver.Proto
+import CoxeterVerif.Model.Balls
+import CoxeterVerif.Spec.Balls
 
 namespace OpsC13
+open Balls
+
+variable {α : Type} [Scalar α] [Codec α]
+
+/-- `radius cx cy cz`, or `E:<kind>` -/
+def outBall (r : Except String (Ball α)) : String :=
+  match r with
+  | .ok B => s!"{Out.sc B.radius} {Out.v3 B.center}"
+  | .error e => s!"E:{e}"
+
+def outRows (rows : List (Row α)) : String :=
+  " ".intercalate (rows.map fun row => s!"{Out.v3 row.a} {Out.sc row.k} {Out.sc row.b}")
+
+def rdEq (c : Ctx) : Rd (V3 α × α) := do
+  let n ← Rd.v3 c; let d ← Rd.sc c; pure (n, d)
+
+def rdPair (c : Ctx) : Rd (V3 α × V3 α) := do
+  let n ← Rd.v3 c; let v ← Rd.v3 c; pure (n, v)
+
+def rdRow (c : Ctx) : Rd (Row α) := do
+  let a ← Rd.v3 c; let k ← Rd.sc c; let b ← Rd.sc c; pure ⟨a, k, b⟩
+
+def rdQuat (c : Ctx) : Rd (Quat α) := do
+  let w ← Rd.sc c; let v ← Rd.v3 c; pure ⟨w, v⟩
+
+/-- one recorded miniball call: `i1 c(3) r2` (returned) or `i0 0 0 0 0` (raised LinAlgError) -/
+def rdOutcome (c : Ctx) : Rd (Option (V3 α × α)) := do
+  let ok ← Rd.int c; let ctr ← Rd.v3 c; let r2 ← Rd.sc c
+  pure (if ok = 1 then some (ctr, r2) else none)
+
+def rdWeighted (c : Ctx) : Rd (α × V3 α) := do
+  let l ← Rd.sc c; let p ← Rd.v3 c; pure (l, p)
 
 /-- driver ops of C13. `none` = unknown op. -/
 def run (α : Type) [Scalar α] [Codec α] (op : String) (c : Ctx) : Option (Rd String) :=
   match op with
+  | "b.mincb" => some do
+      -- in: verts center ; out: ball
+      let verts : List (V3 α) ← Rd.list c (Rd.v3 c)
+      let cen : V3 α ← Rd.v3 c
+      pure (outBall (minimalCenteredBounding verts cen))
+  | "b.maxcbs" => some do
+      -- in: equations (n d) center ; out: ball
+      let eqs : List (V3 α × α) ← Rd.list c (rdEq c)
+      let cen : V3 α ← Rd.v3 c
+      pure (outBall (maximalCenteredBoundedSphere eqs cen))
+  | "b.maxcbc" => some do
+      -- in: verts center ; out: ball
+      let verts : List (V3 α) ← Rd.list c (Rd.v3 c)
+      let cen : V3 α ← Rd.v3 c
+      pure (outBall (maximalCenteredBoundedCircle verts cen))
+  | "b.edgedists" => some do
+      let verts : List (V3 α) ← Rd.list c (Rd.v3 c)
+      let cen : V3 α ← Rd.v3 c
+      pure (Out.scs (edgeLineDistances verts cen))
+  | "b.circumsys" => some do
+      -- in: verts ; out: rows (a k b) of the system handed to lstsq, then atol
+      let verts : List (V3 α) ← Rd.list c (Rd.v3 c)
+      let rows := circumSystemSphere verts
+      pure s!"{outRows rows} {Out.sc (circumAtol rows)}"
+  | "b.circumsysc" => some do
+      let verts : List (V3 α) ← Rd.list c (Rd.v3 c)
+      let normal : V3 α ← Rd.v3 c
+      let rows := circumSystemCircle verts normal
+      pure s!"{outRows rows} {Out.sc (circumAtol rows)}"
+  | "b.circumsphere" => some do
+      -- in: verts x resids ; out: ball
+      let verts : List (V3 α) ← Rd.list c (Rd.v3 c)
+      let x : V3 α ← Rd.v3 c
+      let resids : List α ← Rd.list c (Rd.sc c)
+      pure (outBall (circumsphere verts x resids))
+  | "b.circumcircle" => some do
+      let verts : List (V3 α) ← Rd.list c (Rd.v3 c)
+      let normal : V3 α ← Rd.v3 c
+      let x : V3 α ← Rd.v3 c
+      let resids : List α ← Rd.list c (Rd.sc c)
+      pure (outBall (circumcircle verts normal x resids))
+  | "b.insys" => some do
+      -- in: faces (normal, first vertex) verts ; out: rows, then atol
+      let faces : List (V3 α × V3 α) ← Rd.list c (rdPair c)
+      let verts : List (V3 α) ← Rd.list c (Rd.v3 c)
+      pure s!"{outRows (inSystemSphere faces)} {Out.sc (Scalar.q 1 100000000 * Scalar.sqr (extent verts))}"
+  | "b.insysc" => some do
+      let verts : List (V3 α) ← Rd.list c (Rd.v3 c)
+      let normal : V3 α ← Rd.v3 c
+      let sa : α ← Rd.sc c
+      pure s!"{outRows (inSystemCircle verts normal sa)} {Out.sc (Scalar.q 1 100000000 * Scalar.sqr (extent verts))}"
+  | "b.insphere" => some do
+      -- in: verts x r resids ; out: ball
+      let verts : List (V3 α) ← Rd.list c (Rd.v3 c)
+      let x : V3 α ← Rd.v3 c
+      let r : α ← Rd.sc c
+      let resids : List α ← Rd.list c (Rd.sc c)
+      pure (outBall (insphere verts x r resids))
+  | "b.incircle" => some do
+      let verts : List (V3 α) ← Rd.list c (Rd.v3 c)
+      let x : V3 α ← Rd.v3 c
+      let r : α ← Rd.sc c
+      let resids : List α ← Rd.list c (Rd.sc c)
+      pure (outBall (incircle verts x r resids))
+  | "b.rotate" => some do
+      -- in: quaternion verts ; out: rotated verts (what a retry hands to miniball)
+      let p : Quat α ← rdQuat c
+      let verts : List (V3 α) ← Rd.list c (Rd.v3 c)
+      pure (" ".intercalate (verts.map fun v => Out.v3 (Quat.rotate p v)))
+  | "b.minbound" => some do
+      -- in: verts, outcomes of the miniball calls in order, random rotations drawn in order ; out: ball
+      let verts : List (V3 α) ← Rd.list c (Rd.v3 c)
+      let outcomes : List (Option (V3 α × α)) ← Rd.list c (rdOutcome c)
+      let rots : List (Quat α) ← Rd.list c (rdQuat c)
+      let mb : Nat → List (V3 α) → Option (V3 α × α) := fun k _ => (outcomes.getD (k - 1) none)
+      let rand : Nat → Quat α := fun k => rots.getD (k - 1) Quat.one
+      pure (outBall (minimalBounding mb rand verts))
+  | "b.round" => some do
+      let r : α ← Rd.sc c
+      let cen : V3 α ← Rd.v3 c
+      pure (outBall (roundBall r cen))
+  | "b.ellipse" => some do
+      -- out: bounding ball, bounded ball (each 4 tokens or E:)
+      let a : α ← Rd.sc c
+      let b : α ← Rd.sc c
+      let cen : V3 α ← Rd.v3 c
+      match ellipseBounding a b cen, ellipseBounded a b cen with
+      | .ok B1, .ok B2 => pure s!"{Out.sc B1.radius} {Out.v3 B1.center} {Out.sc B2.radius} {Out.v3 B2.center}"
+      | .error e, _ => pure s!"E:{e}"
+      | _, .error e => pure s!"E:{e}"
+  | "b.ellipsoid" => some do
+      let a : α ← Rd.sc c
+      let b : α ← Rd.sc c
+      let cc : α ← Rd.sc c
+      let cen : V3 α ← Rd.v3 c
+      match ellipsoidBounding a b cc cen, ellipsoidBounded a b cc cen with
+      | .ok B1, .ok B2 => pure s!"{Out.sc B1.radius} {Out.v3 B1.center} {Out.sc B2.radius} {Out.v3 B2.center}"
+      | .error e, _ => pure s!"E:{e}"
+      | _, .error e => pure s!"E:{e}"
+  -- ---------------------------------------------------------------- spec (use in Q mode: exact)
+  | "s.sphereoffsets" => some do
+      -- in: pts c r2 ; out: ‖p−c‖² − r² per point
+      let pts : List (V3 α) ← Rd.list c (Rd.v3 c)
+      let cen : V3 α ← Rd.v3 c
+      let r2 : α ← Rd.sc c
+      pure (Out.scs (BallSpec.sphereOffsets pts cen r2))
+  | "s.maxdistsq" => some do
+      let pts : List (V3 α) ← Rd.list c (Rd.v3 c)
+      let cen : V3 α ← Rd.v3 c
+      pure (Out.sc (BallSpec.maxDistSq pts cen))
+  | "s.planeoffsets" => some do
+      -- in: equations c ; out: n·c + d per plane
+      let eqs : List (V3 α × α) ← Rd.list c (rdEq c)
+      let cen : V3 α ← Rd.v3 c
+      pure (Out.scs (BallSpec.planeOffsets eqs cen))
+  | "s.cert" => some do
+      -- in: pts c r2 support(λ, p) ; out: slack dev (Σλ−1) ‖Σλp−c‖² min λ
+      let pts : List (V3 α) ← Rd.list c (Rd.v3 c)
+      let cen : V3 α ← Rd.v3 c
+      let r2 : α ← Rd.sc c
+      let sup : List (α × V3 α) ← Rd.list c (rdWeighted c)
+      let r := BallSpec.certificate pts cen r2 sup
+      pure s!"{Out.sc r.1} {Out.sc r.2.1} {Out.sc r.2.2.1} {Out.sc r.2.2.2.1} {Out.sc r.2.2.2.2}"
+  | "s.normaleq" => some do
+      -- in: rows x r ; out: Aᵀ(A(x,r) − b) (4 numbers), ‖A(x,r) − b‖²
+      let rows : List (Row α) ← Rd.list c (rdRow c)
+      let x : V3 α ← Rd.v3 c
+      let r : α ← Rd.sc c
+      let g := V3.sum (rows.map fun row => V3.smul (row.resid x r) row.a)
+      let gk := Scalar.sum (rows.map fun row => row.resid x r * row.k)
+      pure s!"{Out.v3 g} {Out.sc gk} {Out.sc (sumSq rows x r)}"
   | _ => none
 
 end OpsC13
